@@ -207,7 +207,7 @@ def unstring_annotation(node: ast.expr, ctx:'model.Documentable', section:str='a
         and the original node is returned.
     """
     try:
-        expr = _AnnotationStringParser().visit(node)
+        expr = _AnnotationStringParser(ctx).visit(node)
     except SyntaxError as ex:
         module = ctx.module
         assert module is not None
@@ -232,6 +232,25 @@ class _AnnotationStringParser(ast.NodeTransformer):
     invalid Python or not a singular expression, L{SyntaxError} is raised.
     """
 
+    def __init__(self, ctx: Optional['model.Documentable'] = None) -> None:
+        super().__init__()
+        self._ctx = ctx
+
+    def _is_typing_name(self, value: ast.expr, name: str) -> bool:
+        """
+        Whether the (already unstringed) expression designates C{typing.<name>}: 
+        spelled C{<name>} or C{<anything>.<name>}, or imported under another name.
+        """
+        if isinstance(value, ast.Name) and value.id == name:
+            return True
+        if isinstance(value, ast.Attribute) and value.attr == name:
+            return True
+        dottedname = node2dottedname(value)
+        if dottedname is not None and self._ctx is not None:
+            return self._ctx.expandName('.'.join(dottedname)) in (
+                f'typing.{name}', f'typing_extensions.{name}')
+        return False
+
     def _parse_string(self, value: str) -> ast.expr:
         statements = ast.parse(value).body
         if len(statements) != 1:
@@ -247,12 +266,17 @@ class _AnnotationStringParser(ast.NodeTransformer):
 
     def visit_Subscript(self, node: ast.Subscript) -> ast.Subscript:
         value = self.visit(node.value)
-        if isinstance(value, ast.Name) and value.id == 'Literal':
-            # Literal[...] expression; don't unstring the arguments.
+        slice: ast.AST
+        if self._is_typing_name(value, 'Literal'):
+            # Literal[...] expression (also when imported under another name); 
+            # don't unstring the arguments.
             slice = node.slice
-        elif isinstance(value, ast.Attribute) and value.attr == 'Literal':
-            # typing.Literal[...] expression; don't unstring the arguments.
-            slice = node.slice
+        elif self._is_typing_name(value, 'Annotated') and \
+                isinstance(node.slice, ast.Tuple) and node.slice.elts:
+            # Annotated[T, metadata...]: only T is a type expression, 
+            # the metadata are values: strings stay strings.
+            elts = [self.visit(node.slice.elts[0])] + list(node.slice.elts[1:])
+            slice = ast.copy_location(ast.Tuple(elts, node.slice.ctx), node.slice)
         else:
             # Other subscript; unstring the slice.
             slice = self.visit(node.slice)
